@@ -864,3 +864,67 @@ def timer_loop(chk, prefix="C07"):
     if not seen:
         chk.fault("timer loop: the resubmission path was not reached")
     return eng
+
+
+def handlers_dispatch(chk, prefix="C16"):
+    """map_handler / parallel_handler: a SUCCEEDED record of the batch operation (reached only when its result was replaced by a summary) =>
+    rebuild from the branch records (replay), otherwise execute; MapExecutor.from_items / ParallelExecutor.from_callables give branch i the index i"""
+    from .handlers import status_in
+    for mod, fn, ex_cls, factory, items_kw in (("operation.map", "map_handler", "MapExecutor", "from_items", "items"), ("operation.parallel", "parallel_handler", "ParallelExecutor", "from_callables", "callables")):
+        eng = Engine(hooks=ExecHooks())
+        P = eng.program
+        st = St()
+        chk.function(f"{mod}.{fn}")
+        chk.function(f"{mod}.{ex_cls}.{factory}", "verified (generic element: comprehension over range(n) / enumerate)")
+        n = z3.Int("n_inputs")
+        st.assume(n >= 0)
+        inputs = st.alloc("list", {"__kind__": "glist", "len": n, "elem": fresh("any", "item")})
+        state = st.alloc("opaque:ExecutionState", {})
+        ctx = st.alloc("opaque:DurableContext", {})
+        op = eng.sym_of_type("Operation", "rec", st, P.modules["lambda_service"])
+        rec = mk_opt(z3.Bool("rec.absent"), op)
+        ident = st.alloc(P.cls("identifier.OperationIdentifier"), {"operation_id": fresh("str", "op_id"), "parent_id": None, "name": None})
+
+        class H(ExecHooks):
+            def opaque_call(self, eng_, s, f, args, kwargs):
+                if f.name == "ExecutionState.get_checkpoint_result":
+                    s.emit("read", id=args[0])
+                    cr = P.cls("state.CheckpointedResult")
+                    out = []
+                    for absent, s2 in eng_.branch(s, is_none(rec)):
+                        out.extend(eng_.call_func(cr.find_method("create_not_found" if absent else "create_from_operation"), [ClassRef(cr)] + ([] if absent else [op]), {}, s2))
+                    return out
+                return ExecHooks.opaque_call(self, eng_, s, f, args, kwargs)
+        eng.hooks = H()
+
+        def mk(name):
+            def summ(eng_, s, args, kwargs):
+                s.emit(name, exe=args[0], state=args[1] if len(args) > 1 else kwargs.get("execution_state"), ctx=kwargs.get("executor_context", args[2] if len(args) > 2 else None))
+                return [("val", s.alloc("opaque:BatchResult", {}), s)]
+            return summ
+        eng.summaries[CE + ".replay"] = mk("replay")
+        eng.summaries[CE + ".execute"] = mk("execute")
+        user = OpaqueFn("user_func")
+        args = {"map_handler": dict(items=inputs, func=user, config=None, execution_state=state, map_context=ctx, operation_identifier=ident),
+                "parallel_handler": dict(callables=inputs, config=None, execution_state=state, parallel_context=ctx, operation_identifier=ident)}[fn]
+        res = eng.run(P.func(f"{mod}.{fn}"), [], args, st=st)
+        chk.paths += len(res)
+        for k, v, s in res:
+            calls = [e for e in s.trace if e.kind in ("replay", "execute")]
+            reads = [e for e in s.trace if e.kind == "read"]
+            ok = k == "val" and len(calls) == 1 and len(reads) == 1
+            goal = z3.BoolVal(ok)
+            if ok:
+                succ = status_in(eng, s, rec, ["SUCCEEDED"])
+                goal = z3.And(goal, ops.values_equal(s, reads[0].id, s.get(ident)["operation_id"]), z3.BoolVal(calls[0].state == state and calls[0].ctx == ctx),
+                              succ if calls[0].kind == "replay" else z3.Not(succ))
+                exes = s.get(s.get(calls[0].exe)["executables"])
+                e_ok = exes.get("__kind__") == "glist"
+                goal = z3.And(goal, z3.BoolVal(e_ok))
+                if e_ok:
+                    el = s.get(exes["elem"])
+                    idx = el["index"]
+                    goal = z3.And(goal, exes["len"] == n, z3.Implies(n > 0, z3.And(zint(idx) >= 0, zint(idx) < n)))
+            chk.prove(f"{prefix}.exec.{fn}", s.pc, goal,
+                      desc=f"{fn}: reads the batch operation's own record; SUCCEEDED => replay(), otherwise execute(), with the same state and context; one executable per input with index = position (0..n-1)",
+                      sample=f"{fn} over n symbolic inputs")
